@@ -133,12 +133,17 @@ class SubCtx:
     (they belong to the stage property's own check)"""
 
     def __init__(self, ctx, mod):
-        self._ctx, self._mod = ctx, mod
+        self._ctx = ctx._ctx if isinstance(ctx, SubCtx) else ctx  # always the context of the property being checked
+        self._mod = mod
 
     def __getattr__(self, k):
         return getattr(self._ctx, k)
 
     def unit(self, name, fn):
+        seen = self._ctx.__dict__.setdefault("_stage_units", set())
+        if (self._mod, name) in seen or self._mod == self._ctx.prop:
+            return None  # already included through another stage (inclusion is transitive, every unit once)
+        seen.add((self._mod, name))
         return self._ctx.unit(f"stage {self._mod}: {name}", fn)
 
     def oblige(self, name, hyps, goal, func=None, kind="post", replay=None, info=None, expect="valid"):
@@ -171,8 +176,9 @@ def stage_concretise(ctx, o, r):
 def include_stage(ctx, mod_name, only=None):
     """regenerate the proof units of another property's module inside this check (obligation names are prefixed with the stage)"""
     import importlib
-    if isinstance(ctx, SubCtx):
-        return  # stages are included by the property being checked only, not transitively (no duplicates)
+    root = ctx._ctx if isinstance(ctx, SubCtx) else ctx
+    if mod_name == root.prop:
+        return
     mod = importlib.import_module(f"props.{mod_name}")
     sub = SubCtx(ctx, mod_name)
     if only is None:
